@@ -13,6 +13,7 @@ import (
 	"errors"
 	"fmt"
 	"io"
+	"strings"
 
 	"cuelabs.dev/go/oci/ociregistry"
 	"github.com/opencontainers/go-digest"
@@ -126,6 +127,11 @@ func (u *Universe) PushMediaType(op Op) string {
 			return MTOpaque
 		}
 		return MTOther
+	}
+	if op.Mode == 3 && mt != "" {
+		// the manifest's own media type in another letter case: media types are compared as
+		// spelled, so this is another type as far as the registry's walk is concerned
+		return strings.ToUpper(mt[:1]) + mt[1:]
 	}
 	if op.Mode == 2 && u.Manifests[op.M].Kind == "image" {
 		return MTIndex // the bytes of an image manifest pushed as an index (they parse as an index without members)
